@@ -513,4 +513,18 @@ Proof.
       apply H0. intros i Hi. apply in_seq in Hi. lia. }
     rewrite E. reflexivity.
 Qed.
+
+(** detection: if some trigger changed sign in a monitored direction over the whole step, an event IS reported (given
+    fuel for the loop), i.e. a crossing that persists across a step is not skipped *)
+Lemma event_detected n t0 t1 e0 e1 : t0 < t1 -> (9/10)^n * (t1 - t0) <= mw ->
+  (exists i, (i < length e0)%nat /\ seen e0 e1 i <> 0%N) ->
+  exists s tr, PHASE (S (S n)) t0 t1 e0 e1 = Event s tr.
+Proof.
+  intros Hlt Hw [i [Hi Hs]].
+  destruct (PHASE (S (S n)) t0 t1 e0 e1) as [|s tr|s|s] eqn:E.
+  - exfalso. apply Hs. apply (proj1 (no_event_iff (S (S n)) t0 t1 e0 e1) E i Hi).
+  - exists s, tr. reflexivity.
+  - exfalso. apply (event_phase_never_asserts (S (S n)) t0 t1 e0 e1 s Hlt E).
+  - exfalso. apply (event_phase_terminates n t0 t1 e0 e1 s Hlt Hw E).
+Qed.
 End LOC.
